@@ -25,7 +25,7 @@ RULE = (
     "child that is not the last one and on the number of children); distinct = distinct canonical JSON of the spec."
 )
 ASSUMPTIONS = [
-    "pairs differing only by empty-vs-absent text are not generated (the statement's normalisation)",
+    "a child built with the empty string differs from the same child built without a value (compared as objects, not as wire text)",
     "unknown attributes are not 'added': the constructors discard them by design (**junk)",
 ]
 
@@ -125,6 +125,12 @@ def perturbations(spec):
             p = copy.deepcopy(spec)
             p["children"][i]["text"] = "None" if prule == "free" else ("0" if prule == "number" else "QQ==")
             yield f"child-text-added-{pos}", p
+        if c.get("text") is None and prule in ("free", "base64"):
+            # an object built with the empty string is not the object built without a value (they only become
+            # indistinguishable on the wire, which is C03's normalisation, not part of this statement)
+            p = copy.deepcopy(spec)
+            p["children"][i]["text"] = ""
+            yield f"child-text-empty-vs-absent-{pos}", p
         p = copy.deepcopy(spec)
         p["children"][i]["text"] = _change_text(c["kind"], c.get("text"))
         yield f"child-text-changed-{pos}", p
@@ -154,6 +160,8 @@ def perturbations(spec):
 def _pair(a_spec, b_spec, label):
     a, b = gen.build(a_spec), gen.build(b_spec)
     want = gen.expected_view(a_spec) == gen.expected_view(b_spec)
+    if label.startswith("child-text-empty-vs-absent"):
+        want = False  # the structural view normalises '' to absent; the objects differ in a value
     got = [(a == b), (b == a), not (a != b), not (b != a)]
     if any(bool(g) != want for g in got):
         raise Failure(
